@@ -1,67 +1,72 @@
 (** C13 — every assembly routine of the module (amd64 and arm64) pinned by the
-    digest of its canonical body (comments, spacing, label names and consistent
-    register renamings do not matter), and the DATA tables of the amd64 files by
-    theirs.  [Gen/AsmAmd64.v] is regenerated from the .s files on every run; an
-    edited routine body, a new or a removed routine changes [asm_digests] and
-    breaks [asm_bodies_pinned]: the lane models were read from exactly these
-    bodies (and, for sse4x4SSE2, the model is *derived* from the body, see
-    ArchAsm.v), so a changed body has to be re-read (the differential run looks
-    for an input meanwhile).  To accept a reviewed change, copy the new digest
-    here. *)
+    digest of its canonical body, and the DATA tables of the amd64 files by
+    theirs.  The canonical body of an amd64 routine does not depend on comments,
+    spacing, label names, a consistent renaming of registers, nor on the order of
+    instructions inside a basic block as far as they do not depend on each other
+    (tools/gosrc2v/asmparse.go, asmReorder: a deterministic topological order of
+    the dependency graph over registers, flags and memory, memory treated
+    conservatively).  The six routines whose lane model is *derived* from the
+    instruction list by proof (ArchAsm.v) carry the mark "proved" instead of a
+    digest: an edit of their body is judged by those proofs.  [Gen/AsmAmd64.v] is
+    regenerated from the .s files on every run; an edited routine body (beyond
+    the above), a new or a removed routine changes [asm_digests] and breaks
+    [asm_bodies_pinned]: the lane models were read from exactly these bodies,
+    so a changed body has to be re-read (the differential run looks for an input
+    meanwhile).  To accept a reviewed change, copy the new digest here. *)
 From Coq Require Import ZArith List String.
 From WebpGen Require AsmAmd64.
 Import ListNotations.
 Open Scope string_scope.
 
 Definition pinned_digests : list (string * string) := [
- ("addGreenToBlueAndRedAVX2", "5abda48fb01f5b21");
+ ("addGreenToBlueAndRedAVX2", "b532122c9f5a0c4b");
  ("addGreenToBlueAndRedNEON", "5240ee48b01ffd66");
- ("addGreenToBlueAndRedSSE2", "669b32051e30c37b");
- ("cpuidAVX2Check", "e676f3c9ad90ebb7");
+ ("addGreenToBlueAndRedSSE2", "d57d2f51ea2c8d9e");
+ ("cpuidAVX2Check", "01d790632b1df781");
  ("dc16asmNEON", "22c3cc2b746d615a");
- ("dc16asmSSE2", "151b4598ec70bfa4");
+ ("dc16asmSSE2", "8c33f466103a4d63");
  ("dc8uvasmNEON", "cd896b7461b2167c");
- ("dc8uvasmSSE2", "39e24aaa05cd7ee5");
- ("dequantCoeffsSSE2", "a659193433cdaa03");
- ("fTransformAVX2", "567f1e3735ab117d");
+ ("dc8uvasmSSE2", "e528289a28b1b320");
+ ("dequantCoeffsSSE2", "70c36425841c6ba4");
+ ("fTransformAVX2", "d9d52b79b5f60ca0");
  ("fTransformNEON", "0ea7bb9b9899753e");
- ("fTransformSSE2", "e1edacb058970359");
+ ("fTransformSSE2", "9779bbe71c252d0b");
  ("fTransformWHTNEON", "437da7603f97878d");
- ("fTransformWHTSSE2", "98c14b635df56a11");
+ ("fTransformWHTSSE2", "proved");
  ("he16asmNEON", "072e939ad723ba5a");
- ("he16asmSSE2", "e588f687f32fc148");
+ ("he16asmSSE2", "6e2aaeb6ef23b8a0");
  ("he8uvasmNEON", "e56572f149e1d3b9");
- ("he8uvasmSSE2", "c3f5bcdbe1dcb677");
- ("iTransformOneAVX2", "dc25d8f4e15915e6");
+ ("he8uvasmSSE2", "41ecaf20ec1d8875");
+ ("iTransformOneAVX2", "proved");
  ("iTransformOneNEON", "7a1a9c7513174264");
- ("iTransformOneSSE2", "fad7c2aa5d6fd686");
- ("nzCountACSSE2", "d4ea7dfb9e8ee81c");
- ("quantizeACAVX2", "e03e6c346a95d6f1");
- ("quantizeACSSE2", "5adb9f954776e752");
- ("simpleVFilter16AVX2", "7f46b783ef152254");
- ("simpleVFilter16SSE2", "02e902883128e2da");
- ("sse16x16AVX2", "b2e197a96fa2bdac");
+ ("iTransformOneSSE2", "proved");
+ ("nzCountACSSE2", "97fe93362a35e982");
+ ("quantizeACAVX2", "5974a3a8742db5bb");
+ ("quantizeACSSE2", "58dae87f790246d9");
+ ("simpleVFilter16AVX2", "889949f3e847cd98");
+ ("simpleVFilter16SSE2", "3febef6958e063dc");
+ ("sse16x16AVX2", "c73d809f2bcb037d");
  ("sse16x16NEON", "a84a09e69a1bdd5d");
- ("sse16x16SSE2", "df1f693d55ae6330");
+ ("sse16x16SSE2", "proved");
  ("sse4x4NEON", "2dfba460ece9ee49");
- ("sse4x4SSE2", "b17e21cb6ab9f093");
- ("subtractGreenAVX2", "aad67552addfd0c2");
+ ("sse4x4SSE2", "proved");
+ ("subtractGreenAVX2", "e764d290c7698a6b");
  ("subtractGreenNEON", "dcf686d9617c9614");
- ("subtractGreenSSE2", "3f6864506180caad");
- ("tDisto4x4AVX2", "84aef9202fba592e");
- ("tDisto4x4SSE2", "fdab449fc8d8908e");
+ ("subtractGreenSSE2", "0a5167f3034fb0e0");
+ ("tDisto4x4AVX2", "1be01a9d5f3d89f1");
+ ("tDisto4x4SSE2", "3cc0f476d65932a1");
  ("tm16asmNEON", "3b06b55b441dfa0c");
- ("tm16asmSSE2", "565413565c5b31e1");
+ ("tm16asmSSE2", "3c2ce6d3fe69ccef");
  ("tm8uvasmNEON", "48b239481e740aa9");
- ("tm8uvasmSSE2", "9c8c844313eccb42");
+ ("tm8uvasmSSE2", "9f4bb71f85fb4532");
  ("transformWHTNEON", "26ce1b15de80b7de");
- ("transformWHTSSE2", "2af99508f7c6d81c");
+ ("transformWHTSSE2", "proved");
  ("ve16asmNEON", "4552de528bd47c1d");
- ("ve16asmSSE2", "2a3a8fd5de9902a0");
+ ("ve16asmSSE2", "378eb74be93041da");
  ("ve8uvasmNEON", "25944432e0826973");
- ("ve8uvasmSSE2", "9bd9a3c8549cb6a8");
- ("yuvPackedToNRGBABatchAVX2", "1c5b5c60d4d783ea");
- ("yuvPackedToNRGBABatchSSE2", "196e7c06489c33df")
+ ("ve8uvasmSSE2", "0ede511009443a42");
+ ("yuvPackedToNRGBABatchAVX2", "6061c8949740be2d");
+ ("yuvPackedToNRGBABatchSSE2", "25b7c950fb9e0c23")
 ].
 
 Definition pinned_data_digest : string := "4a33599003dee710".
